@@ -127,8 +127,26 @@ func (vt *v2T) scenC02() {
 			}
 		}
 	}
-	for _, x := range xs {
+	for xi, x := range xs {
 		vt.match(c, x, v2MatchOpts{scored: true})
+		if xi%5 == 0 { // the same bytes once more, at once: every reported match is backed by a scoring of THIS call
+			vt.match(c, x, v2MatchOpts{scored: true})
+		}
+		vt.reset(false)
+	}
+	// a reader that answers one Read with (0, nil) -- allowed, neither an end nor a failure -- in the middle of a word that
+	// continues: what is scored is the whole input, not the part delivered before the empty read
+	for k := 0; k < 6; k++ {
+		d := docs[vt.rng.Intn(len(docs))]
+		for len(d.Data) > 3000 || len(d.Data) < 200 {
+			d = docs[vt.rng.Intn(len(docs))]
+		}
+		body := bytes.TrimRight(d.Data, " \t\r\n")
+		x := append(append([]byte(nil), body...), []byte("sx and further words that are not part of it\n")...)
+		cutAt := len(body)
+		vt.match(c, x, v2MatchOpts{scored: true, api: "MatchFrom", reader: func(data []byte) (interface{ Read([]byte) (int, error) }, string) {
+			return &v2ChunkReader{data: data, chunks: []int{cutAt, 0, 1 << 20}, failAt: -1}, ""
+		}})
 		vt.reset(false)
 	}
 	// repetitive documents: a long run of one word, a phrase repeated, a two-word vocabulary.  Their q-grams line up with
@@ -290,6 +308,17 @@ func (vt *v2T) scenC04() {
 			}
 		}
 	}
+	// a document that is nothing but the last line of another one: for the input "that other document, whole" the overlap filter
+	// keeps it next to the exact match (it starts on the line where the exact match ends) -- on every call, in every instance
+	var tailOwner []byte
+	for _, b := range base {
+		lines := strings.Split(strings.TrimRight(string(b.Data), "\n"), "\n")
+		if last := lines[len(lines)-1]; len(b.Data) < 3000 && len(lines) > 3 && len(strings.Fields(last)) >= 8 && !v2DashEnded(last) {
+			base = append(base, v2Doc{Key: "License/Tail-Line/license.txt", Cat: "License", Name: "Tail-Line", Variant: "license.txt", Data: []byte(last + "\n")})
+			tailOwner = b.Data
+			break
+		}
+	}
 	proc := os.Getenv("VERIF_PROC")
 	perm := func() []v2Doc {
 		p := vt.rng.Perm(len(base))
@@ -345,6 +374,9 @@ func (vt *v2T) scenC04() {
 		if d.Name == "WTFPL" {
 			inputs = append(inputs, d.Data)
 		}
+	}
+	if tailOwner != nil {
+		inputs = append(inputs, tailOwner)
 	}
 	// long documents with scattered edits (both sides of the diff far beyond 100 words)
 	nlong := 0
@@ -566,6 +598,8 @@ func (vt *v2T) scenC08() {
 			ntrunc++
 		}
 	}
+	// a text that ends in a carriage return (half a CRLF): whatever looks ahead for the line feed has nothing to look at
+	contents = append(contents, append(bytes.TrimRight(multi(mit.Data), "\n"), '\r'), append(append([]byte(nil), apacheHdr.Data...), []byte("last line\r")...))
 	nd := 6
 	if vt.thorough() {
 		nd = 40
@@ -614,6 +648,17 @@ func (vt *v2T) scenC08() {
 			padded := append(bytes.Repeat([]byte(" "), p), content...)
 			r := vt.match(c, padded, v2MatchOpts{})
 			vt.pair(ref, r, fmt.Sprintf("pad:%d", p), 0, id, false, nil, nil)
+		}
+		// the widths at which the input ends exactly where a buffer ends (1024 + 1020k bytes, and one byte either side), read from a
+		// reader that says EOF together with the last bytes: the last pass has no spare bytes behind the input
+		for p := 0; p <= 2*1024+8; p++ {
+			if m := (p + len(content)) % 1020; m >= 3 && m <= 5 && p+len(content) >= 1023 {
+				padded := append(bytes.Repeat([]byte(" "), p), content...)
+				r := vt.match(c, padded, v2MatchOpts{api: "MatchFrom", reader: func(data []byte) (interface{ Read([]byte) (int, error) }, string) {
+					return &v2ChunkReader{data: data, chunks: []int{1 << 20}, withEOF: true, failAt: -1}, ""
+				}})
+				vt.pair(ref, r, fmt.Sprintf("pad-eof:%d", p), 0, id, false, nil, nil)
+			}
 		}
 		// (3) failing readers: every offset for short contents, a seeded sample otherwise
 		var offs []int
@@ -809,6 +854,8 @@ func (vt *v2T) scenC10() {
 		nmut = 300
 	}
 	var inputs [][]byte
+	// storms of words broken over line ends that then end with their line; of hyphens over blank lines
+	inputs = append(inputs, bytes.Repeat([]byte("a-\nb\n"), 1500), bytes.Repeat([]byte("co-\n\nop x-\ny\n\n"), 700), bytes.Repeat([]byte("w-\n"), 2500))
 	inputs = append(inputs, nil, []byte(""), []byte("!!! ---"), []byte("\n"), []byte("-\n-\n"), []byte("Copyright 2020 X\n"), []byte("a"), []byte("\xff"), []byte("&"), []byte("("), []byte("(c)"),
 		[]byte("&#41; first word is a lone parenthesis\n&period;\n&#58; and a colon &#41;\n"), []byte("&#41;"), []byte(")\n.\n:\n"))
 	// the corpus documents themselves: the only inputs that still produce hits at thresholds next to 1
@@ -899,7 +946,14 @@ func (vt *v2T) totalCall(c *v2C, in []byte) {
 		}()
 		f()
 	}
-	guard("Normalize", func() { c.c.Normalize(in) })
+	guard("Normalize", func() {
+		out := c.c.Normalize(in)
+		// the normalized text keeps the lines of the input: it cannot have more of them (a run-away line counter would write
+		// line ends without end)
+		if no, ni := bytes.Count(out, []byte("\n")), bytes.Count(in, []byte("\n")); no > ni+1 {
+			panic(fmt.Sprintf("Normalize wrote %d line ends for an input with %d", no, ni))
+		}
+	})
 	guard("AddContent", func() {
 		s := NewClassifier(c.thr)
 		s.AddContent("License", "Scratch", "license.txt", in)
